@@ -95,7 +95,11 @@ func replay(path string, w *tlaio.Writer, st *stats) error {
 		return err
 	}
 	st.Behaviours++
-	x := newWorld(w, h.Req, true)
+	seedTx := true
+	if v, ok := h.Design["SeedTx"].(bool); ok {
+		seedTx = v
+	}
+	x := newWorld(w, h.Req, true, seedTx)
 	x.emit(map[string]any{"ev": "reset", "req": h.Req, "design": h.Design, "src": filepath.Base(path)})
 	if err := x.startGen(); err != nil {
 		return err
@@ -105,8 +109,13 @@ func replay(path string, w *tlaio.Writer, st *stats) error {
 		st.Steps++
 		line := map[string]any{"ev": "step", "a": sp.A, "p": sp.P}
 		switch sp.A {
-		case "step":
+		case "step", "readfail":
+			if sp.A == "readfail" {
+				// the store fails the next lookup of this request's idempotency key
+				x.failLookup.Store(sp.P, true)
+			}
 			at := x.stepProc(sp.P)
+			x.failLookup.Delete(sp.P)
 			if at == "" {
 				diverged = true
 				continue
@@ -160,7 +169,7 @@ func replay(path string, w *tlaio.Writer, st *stats) error {
 // scheduler, with jitter at the yield points and random persistence latency.
 func freeRun(w *tlaio.Writer, st *stats, reqs map[string]Req, seed int64) {
 	rng := rand.New(rand.NewSource(seed))
-	x := newWorld(w, reqs, false)
+	x := newWorld(w, reqs, false, true)
 	x.free = true
 	x.emit(map[string]any{"ev": "reset", "req": reqs, "design": map[string]any{}, "src": fmt.Sprintf("free-%d", seed)})
 	var lat sync.Mutex
